@@ -17,13 +17,15 @@ func init() {
 		Explanation: "C36.a GUARD: Throttler.delayFactor is read only with mu held and written only with mu held exclusively (lock-set analysis of every method and closure); it is a plain int (not an atomic) so no reader can observe an intermediate value. " +
 			"C36.b DECIDE + WHO (interval invariant 0 ≤ delayFactor ≤ len(delays)−1): New guarantees len(delays) ≥ 1 and releaseRate ≥ 1; the only writers of delayFactor are New, Signal, Release and Reset; Signal increments only on the edge delayFactor < len(delays)−1; Release subtracts and then stores 0 on the negative edge before the lock is released; Reset stores 0 — each mutator preserves the invariant, so delays[delayFactor] is always in range. " +
 			"C36.c DOM: Delay returns nil at once for a zero delay and otherwise waits in a select that has a ctx.Done() case; the idle timer is armed with Reset as its callback. " +
-			"C36.d DOM: Signal and Release restart the idle timer with idleTimeout on every path (directly or through a helper all of whose paths do), except on the nil-timer edge — so the timer that returns the level to zero is running whenever the level may be above zero.",
+			"C36.d DOM: Signal and Release restart the idle timer with idleTimeout on every path (directly or through a helper all of whose paths do), except on the nil-timer edge — so the timer that returns the level to zero is running whenever the level may be above zero. " +
+			"C36.e ORD: in Store.Execute and Store.Request every path from the throttle wait (Throttler.Delay) to the consensus step passes the nil edge of Delay's own error or of a ctx.Err() test made after the wait.",
 		NotCovered: []string{"wall-clock behaviour of the delays", "fairness of the RWMutex"},
 		Run:        runC36,
 	})
 }
 
 func runC36(c *core.Ctx) {
+	c36e(c)
 	c36Idle(c)
 	guardCheck(c, "C36.a", "store/throttler", an.GuardSpec{TypeName: "Throttler", Mutex: "mu", Fields: []string{"delayFactor"}}, 6)
 
